@@ -157,7 +157,7 @@ func runC04(rt *rapid.T, st *stats.Collector) {
 	closed := g.client.IsClosed()
 	writes, calls := g.e.conn.Snapshot()
 	if closed {
-		if g.e.conn.CloseCalls == 0 {
+		if g.e.conn.NumCloseCalls() == 0 {
 			rt.Fatalf("client reports closed but Close was never called on the connection\n%s", describe())
 		}
 		// A closed client rejects every further call without touching the connection.
